@@ -169,7 +169,7 @@ def build(ctx, sh):
              "o": getattr(c, "o", None), "msg": (str(out.exc) if out.exc is not None else None),
              "OP": opcodes_for(m), "oplen": S.opcode_len(m), "ind": (16 if sh.form.startswith("[") else 0),
              "w16": S.mclass(m) in ("reg16", "reg16p"), "cls": (sh.src[1] if sh.src and sh.src[0] != "lbl" else None),
-             "src": (sh.src[0] if sh.src else None)}
+             "src": (sh.src[0] if sh.src else None), "raw": sh.raw if isinstance(sh.raw, str) else None}
     c.info = {"lines": lines, "outcome": out.describe(), "bytes": c.b, "size": c.size}
     return c
 
